@@ -544,8 +544,25 @@ impl Stream for ServerStream {
             ["req", ..] => {
                 let Some((from, req)) = Self::parse_request(&t) else { return "bad-op".into() };
                 let now = dht::verif::now_ns();
-                let allowed = self.filter.allow_request(&req, from);
-                let reply = guarded(std::panic::AssertUnwindSafe(|| self.server.handle_request(&self.rt, &self.srt, from, req.clone())));
+                // a request reaches a server over the wire: what `handle_request` sees is the decoding of
+                // the datagram.  The reference below judges the request that was SENT.
+                let wire_req = {
+                    let m = dht::verif::Msg::new(7, None, None, MessageType::Request(req.clone()), false);
+                    match m.to_bytes().ok().and_then(|b| dht::verif::Msg::from_bytes(&b).ok()).map(|m2| m2.message_type().clone()) {
+                        Some(MessageType::Request(r)) => {
+                            if crate::streams::codec::render_request(&r) != crate::streams::codec::render_request(&req) {
+                                out.count("wire:request-changed-in-transport");
+                            }
+                            r
+                        }
+                        _ => {
+                            out.count("wire:request-not-transportable");
+                            req.clone()
+                        }
+                    }
+                };
+                let allowed = self.filter.allow_request(&wire_req, from);
+                let reply = guarded(std::panic::AssertUnwindSafe(|| self.server.handle_request(&self.rt, &self.srt, from, wire_req.clone())));
                 let reply = match reply {
                     Ok(r) => r,
                     Err(m) => {
@@ -859,7 +876,7 @@ pub fn run(out: &mut Out, seed: u64, thorough: bool, replay: Option<&str>) {
                     let cas = match g.rng.below(6) {
                         0 => Some(seq.wrapping_sub(1)),
                         1 => Some(seq),
-                        2 => Some(*g.rng.pick(&[0i64, 1, 2])),
+                        2 => Some(*g.rng.pick(&[0i64, 1, 2, -1, -1, -2, i64::MIN])),
                         _ => None,
                     };
                     let msg = signable_mutable(seq, &v, salt.as_deref());
